@@ -33,6 +33,9 @@
 #ifndef SEP
 #  define SEP ' '
 #endif
+#ifndef VPREFIX
+#  define VPREFIX "" /* concrete start of the value (e.g. "bind " so that 4 more bytes can repeat a lookup word) */
+#endif
 #ifndef MODE
 #  define MODE 0
 #endif
@@ -155,7 +158,7 @@ void harness(void)
 #ifdef KWSYM
   xl = KWSYM + 1 + V;
 #else
-  xl = sizeof(kw) - 1 + 1 + V;
+  xl = sizeof(kw) - 1 + 1 + (sizeof(VPREFIX) - 1) + V;
 #endif
   x = vp_malloc(xl); /* exact size: the line is length-delimited, not NUL-terminated */
 #ifdef KWSYM
@@ -168,7 +171,10 @@ void harness(void)
   for (i = 0; i < sizeof(kw) - 1; i++)
     x[n++] = (unsigned char)kw[i];
 #endif
-  x[n++] = SEP; /* concrete: a symbolic separator would make the keyword text itself symbolic for the symbolic executor */
+  x[n++] = SEP;
+  for (i = 0; i < sizeof(VPREFIX) - 1; i++)
+    x[n++] = (unsigned char)VPREFIX[i];
+  /* separator concrete: a symbolic separator would make the keyword text itself symbolic for the symbolic executor */
   for (i = 0; i < V; i++) {
     x[n] = vp_u8();
     VP_ASSUME(x[n] != '\n'); /* the line splitter never passes a line feed */
